@@ -271,13 +271,13 @@ func (l *sequenceListener) ExitWildcardAS(c *sequence.WildcardASContext) {
 }
 
 func (l *sequenceListener) ExitLegacyAS(c *sequence.LegacyASContext) {
-	re := c.GetText()[1:]
+	re := canonicalAS(c.GetText()[1:])
 	//fmt.Printf("LegacyAS: %s RE: %s\n", c.GetText(), re)
 	l.push(re)
 }
 
 func (l *sequenceListener) ExitAS(c *sequence.ASContext) {
-	re := c.GetText()[1:]
+	re := canonicalAS(c.GetText()[1:])
 	//fmt.Printf("AS: %s RE: %s\n", c.GetText(), re)
 	l.push(re)
 }
@@ -292,6 +292,22 @@ func (l *sequenceListener) ExitIFace(c *sequence.IFaceContext) {
 	re := c.GetText()
 	//fmt.Printf("IFace: %s RE: %s\n", c.GetText(), re)
 	l.push(re)
+}
+
+// canonicalAS returns the AS number in the spelling used by the path
+// description the sequence regexp is matched against (see GetSequence), such
+// that the letter case of hex digits and alternative spellings (e.g. 0:0:1
+// for 1) do not matter. AS number 0 is the wildcard, however it is spelled.
+// Text that is not a valid AS number is left unchanged.
+func canonicalAS(s string) string {
+	as, err := addr.ParseAS(s)
+	if err != nil {
+		return s
+	}
+	if as == 0 {
+		return asWildcard
+	}
+	return as.String()
 }
 
 func hop(ia addr.IA, ingress, egress iface.ID) string {
